@@ -72,11 +72,14 @@ Lemma valset_from_proto_ok vp vals tot :
             nonneg_powers vals /\ tot = total_of (hash_input vals) /\ 0 <= tot <= max_total_power.
 Proof.
   unfold valset_from_proto. destruct vp as [p|]; [|discriminate].
-  intro H. inv_ok H. destruct a as [|v l] eqn:Ea; [discriminate|].
-  destruct (forallb validator_basic (v :: l) && validator_basic a0) eqn:F; [|discriminate].
+  intro H. apply obind_ok in H as (vs & Hvs & H). apply obind_ok in H as (pr & Hpr & H).
+  apply obind_ok in H as (t & Ht & H).
+  destruct vs as [|v l]; [discriminate|].
+  destruct (forallb validator_basic (v :: l) && validator_basic pr) eqn:F; [|discriminate].
   inversion H; subst. apply andb_true_iff in F as [F _]. apply forallb_validator_basic in F as [Hn _].
-  exists p. repeat split; auto; try discriminate;
-    destruct (total_power_loop_ok (v :: l) 0 tot) as [E R]; auto; unfold max_total_power; lia.
+  destruct (total_power_loop_ok (v :: l) 0 tot) as [E R]; auto; [unfold max_total_power; lia|].
+  exists p. split; [reflexivity|]. split; [exact Hvs|]. split; [discriminate|]. split; [exact Hn|].
+  split; [lia|exact R].
 Qed.
 
 (** * Sums over index lists *)
@@ -112,6 +115,23 @@ Proof.
   cbn [fold_right length seq sum_f nth]. rewrite <- seq_shift, sum_f_map_S, IH. reflexivity.
 Qed.
 
+Lemma number_from_app {A} (a b : list A) i :
+  number_from i (a ++ b) = number_from i a ++ number_from (i + length a) b.
+Proof.
+  revert i; induction a as [|x a IH]; intro i; cbn; [now rewrite Nat.add_0_r|].
+  rewrite IH. replace (S i + length a)%nat with (i + S (length a))%nat by lia. reflexivity.
+Qed.
+
+Lemma index_of_addr_spec addr : forall vals i vi v,
+  index_of_addr addr i vals = Some (vi, v) -> exists k, vi = (i + k)%nat /\ nth_error vals k = Some v.
+Proof.
+  induction vals as [|x vals IH]; intros i vi v H; cbn in H; [discriminate|].
+  destruct (bytes_eqb (va_addr x) addr).
+  - inversion H; subst. exists 0%nat. split; [lia|reflexivity].
+  - apply IH in H as (k & -> & N). exists (S k). split; [lia|exact N].
+Qed.
+
+
 Section Tallies.
   Variable verify_sig : pubkey -> bytes -> pcommit -> nat -> bool.
   Variables (chain : bytes) (c : pcommit).
@@ -121,8 +141,8 @@ Section Tallies.
     nonneg_powers vals -> 0 <= signed_own_from verify_sig chain c i (hash_input vals) sigs.
   Proof.
     induction vals as [|v vals IH]; intros sigs i Hn; [cbn; lia|].
-    inversion Hn; subst. destruct sigs as [|s sigs]; cbn; [lia|].
-    specialize (IH sigs (S i) H2). destruct (signs verify_sig chain c (va_pk v) (i, s)); lia.
+    inversion Hn as [|? ? Hv Hl]; subst. destruct sigs as [|s sigs]; cbn; [lia|].
+    specialize (IH sigs (S i) Hl). unfold hash_input in *. destruct (signs verify_sig chain c (va_pk v) (i, s)); lia.
   Qed.
 
   Lemma vcl_loop_sound needed : forall sigs vals idx tallied,
@@ -131,15 +151,15 @@ Section Tallies.
     tallied + signed_own_from verify_sig chain c idx (hash_input vals) sigs > needed.
   Proof.
     induction sigs as [|s sigs IH]; intros vals idx tallied Hn H; [destruct vals; discriminate|].
-    destruct vals as [|v vals]; [discriminate|]. inversion Hn; subst.
-    cbn [vcl_loop] in H. cbn [hash_input map signed_own_from fst snd]. unfold signs; cbn [fst snd].
+    destruct vals as [|v vals]; [discriminate|]. inversion Hn as [|? ? Hv Hl]; subst.
+    cbn [vcl_loop] in H. unfold hash_input in *. cbn [map signed_own_from fst snd]. unfold signs; cbn [fst snd].
     destruct (for_block s) eqn:FB; cbn [negb andb] in *.
     - destruct (verify_sig (va_pk v) chain c idx) eqn:V; cbn [negb] in H; [|discriminate].
-      pose proof (signed_own_from_nonneg vals sigs (S idx) H3) as NN.
+      pose proof (signed_own_from_nonneg vals sigs (S idx) Hl) as NN. unfold hash_input in NN.
       destruct (tallied + va_power v >? needed) eqn:G.
-      + change (map (fun v0 => (va_pk v0, va_power v0)) vals) with (hash_input vals). lia.
-      + apply IH in H; auto. change (map (fun v0 => (va_pk v0, va_power v0)) vals) with (hash_input vals). lia.
-    - apply IH in H; auto. change (map (fun v0 => (va_pk v0, va_power v0)) vals) with (hash_input vals). lia.
+      + lia.
+      + apply IH in H; auto; lia.
+    - apply IH in H; auto; lia.
   Qed.
 
   Lemma verify_commit_light_sound vals total height :
@@ -158,22 +178,6 @@ Section Tallies.
   Qed.
 
   (** ** The trusted-set tally *)
-  Lemma number_from_app {A} (a b : list A) i :
-    number_from i (a ++ b) = number_from i a ++ number_from (i + length a) b.
-  Proof.
-    revert i; induction a as [|x a IH]; intro i; cbn; [now rewrite Nat.add_0_r|].
-    rewrite IH. repeat f_equal. lia.
-  Qed.
-
-  Lemma index_of_addr_spec addr : forall vals i vi v,
-    index_of_addr addr i vals = Some (vi, v) -> exists k, vi = (i + k)%nat /\ nth_error vals k = Some v.
-  Proof.
-    induction vals as [|x vals IH]; intros i vi v H; cbn in H; [discriminate|].
-    destruct (bytes_eqb (va_addr x) addr).
-    - inversion H; subst. exists 0%nat. split; [lia|reflexivity].
-    - apply IH in H as (k & -> & N). exists (S k). split; [lia|exact N].
-  Qed.
-
   Variable tvals : list validator.
   Let dv : validator := {| va_addr := []; va_pk := (O, []); va_power := 0 |}.
   Let P (j : nat) : bool := signed_by verify_sig chain c (va_pk (nth j tvals dv)).
@@ -219,8 +223,11 @@ Section Tallies.
   Proof.
     unfold signed_trusted.
     rewrite (fold_sum_seq (fun v => if signed_by verify_sig chain c (fst v) then snd v else 0) (va_pk dv, va_power dv)).
-    unfold hash_input at 2. rewrite map_length. apply sum_f_ext. intros j _.
-    unfold hash_input. rewrite (map_nth (fun v => (va_pk v, va_power v)) tvals dv j). reflexivity.
+    assert (L : length (hash_input tvals) = length tvals) by (unfold hash_input; apply map_length).
+    rewrite L. apply sum_f_ext. intros j _.
+    assert (N : nth j (hash_input tvals) (va_pk dv, va_power dv) = (va_pk (nth j tvals dv), va_power (nth j tvals dv)))
+      by (unfold hash_input; apply (map_nth (fun v => (va_pk v, va_power v)))).
+    rewrite N. reflexivity.
   Qed.
 
   Lemma seen_le_signed_trusted seen :
@@ -247,31 +254,32 @@ Section Tallies.
     intros Hn Ht Hnum Hden H. unfold verify_commit_light_trusting in H.
     destruct (N.eqb_spec den 0) as [|Dz]; [discriminate|].
     rewrite (i64_small num Hnum), (i64_small den Hden) in H.
-    pose proof (total_of_nonneg tvals Hn) as Tn. rewrite <- Ht in *.
-    destruct (safe_mul ttotal (Z.of_N num)) as [m ov] eqn:SM.
+    pose proof (total_of_nonneg tvals Hn) as Tn. rewrite <- Ht in *. clear Ht.
+    set (n := Z.of_N num) in *. set (d := Z.of_N den) in *.
+    assert (Hn0 : 0 <= n) by (unfold n; lia). assert (Hd0 : 0 < d) by (unfold d; lia).
+    destruct (safe_mul ttotal n) as [m ov] eqn:SM.
     destruct ov; [discriminate|].
-    assert (Em : m = ttotal * Z.of_N num /\ 0 <= m <= max_int64).
+    assert (Em : m = ttotal * n /\ 0 <= m <= max_int64).
     { unfold safe_mul in SM.
-      destruct ((ttotal =? 0) || (Z.of_N num =? 0)) eqn:Z0.
-      - inversion SM; subst. apply orb_true_iff in Z0 as [Z0|Z0]; apply Z.eqb_eq in Z0; rewrite Z0; unfold max_int64; lia.
+      destruct ((ttotal =? 0) || (n =? 0)) eqn:Z0.
+      - inversion SM as [[E1]]. apply orb_true_iff in Z0 as [Z0|Z0]; apply Z.eqb_eq in Z0; rewrite Z0; unfold max_int64; lia.
       - apply orb_false_iff in Z0 as [Z1 Z2]. apply Z.eqb_neq in Z1. apply Z.eqb_neq in Z2.
-        destruct (Z.of_N num <? 0) eqn:B0; [lia|]. destruct (ttotal <? 0) eqn:A0; [lia|].
-        destruct (ttotal >? Z.quot max_int64 (Z.of_N num)) eqn:OV; [discriminate|].
-        inversion SM; subst.
+        destruct (n <? 0) eqn:B0; [lia|]. destruct (ttotal <? 0) eqn:A0; [lia|].
+        destruct (ttotal >? Z.quot max_int64 n) eqn:OV; [discriminate|].
+        inversion SM as [[E1]].
         rewrite Z.quot_div_nonneg in OV by (unfold max_int64; lia).
-        assert (ttotal * Z.of_N num <= max_int64).
-        { pose proof (Z.mul_div_le max_int64 (Z.of_N num) ltac:(lia)). nia. }
+        assert (ttotal * n <= max_int64).
+        { pose proof (Z.mul_div_le max_int64 n ltac:(lia)). nia. }
         rewrite wrap64_small by (unfold min_int64; lia). lia. }
-    destruct Em as [-> Rm].
-    assert (Q : 0 <= Z.quot (ttotal * Z.of_N num) (Z.of_N den) <= max_int64).
+    destruct Em as [Em Rm]. rewrite Em in *. clear Em SM.
+    assert (Q : 0 <= Z.quot (ttotal * n) d <= max_int64).
     { rewrite Z.quot_div_nonneg by lia. split; [apply Z.div_pos; lia|].
-      pose proof (Z.div_le_upper_bound (ttotal * Z.of_N num) (Z.of_N den) max_int64 ltac:(lia)).
-      apply H0. unfold max_int64 in *. nia. }
+      apply Z.div_le_upper_bound; [lia|]. unfold max_int64 in *. nia. }
     rewrite wrap64_small in H by (unfold min_int64; lia).
-    apply (vclt_loop_sound _ _ [] 0%nat 0 []) in H; auto; try constructor; try (intros j []).
+    apply (vclt_loop_sound _ _ [] 0%nat 0 []) in H; [ | reflexivity | reflexivity | constructor | intros j [] | reflexivity ].
     destruct H as (seen' & ND & Hs & G).
     pose proof (seen_le_signed_trusted seen' Hn ND Hs) as LE.
     rewrite Z.quot_div_nonneg in G by lia.
-    pose proof (Z.mul_succ_div_gt (ttotal * Z.of_N num) (Z.of_N den) ltac:(lia)). nia.
+    pose proof (Z.mul_succ_div_gt (ttotal * n) d ltac:(lia)). nia.
   Qed.
 End Tallies.
